@@ -204,6 +204,32 @@ def run(ctx):
             ctx.violation('R3', f'{qn}:rule-test', f.where,
                           'top-level `if self.rule(self.match, o)` test not found: match criterion altered')
 
+    # early exits of the node finders: a `return` that skips the descent must be control-dependent on the match test
+    for rel, qn in (('loki/ir/find.py', 'FindNodes.visit_Node'), ('loki/ir/find.py', 'FindScopes.visit_Node')):
+        f = m.get_function(rel, qn)
+        loop_line = min([n.lineno for n in ast.walk(f.node) if isinstance(n, ast.For)
+                         and 'children' in ast.unparse(n.iter)] or [10 ** 9])
+
+        def early_returns(stmts, guards, out):
+            for st in stmts:
+                if isinstance(st, ast.If):
+                    early_returns(st.body, guards + [ast.unparse(st.test)], out)
+                    early_returns(st.orelse, guards + ['not ' + ast.unparse(st.test)], out)
+                elif isinstance(st, ast.Return) and st.lineno < loop_line:
+                    out.append((st, guards))
+            return out
+        bad = [(r, g) for r, g in early_returns(f.node.body, [], []) if not any('self.rule(self.match, o)' in x for x in g)]
+        if bad:
+            r, g = bad[0]
+            ctx.violation('R3', f'{qn}:early-exit', f'{f.module.relpath}:{r.lineno}',
+                          f'`{ast.unparse(r)}` under `{" and ".join(g) or "<no guard>"}` skips the descent into o.children without '
+                          f'the node itself having matched: nested matches are lost (greedy mode must only prune below a match)')
+        else:
+            ctx.judge('R3', f'{qn}:early-exit')
+        greedy = [g for r, g in early_returns(f.node.body, [], []) if any('self.greedy' in x for x in g)]
+        (ctx.judge('R3', f'{qn}:greedy-prunes') if greedy else
+         ctx.violation('R3', f'{qn}:greedy', f.where, 'greedy mode no longer prunes below a matched node'))
+
     # ---- R4
     node = m.get_class('loki/ir/nodes/abstract_nodes.py', 'Node')
     ch = node.function('children')
@@ -273,6 +299,10 @@ MUTANTS = [
            "        ret = kwargs.pop('ret', self.default_retval())\n        if self.rule(self.match, o):\n            ret.append(o)\n            if self.greedy:\n                return ret\n        for i in o.children:\n            ret = self.visit(i, ret=ret, **kwargs)\n        return ret or self.default_retval()\n\n    def visit_TypeDef",
            "        ret = kwargs.pop('ret', self.default_retval())\n        for i in o.children:\n            ret = self.visit(i, ret=ret, **kwargs)\n        if self.rule(self.match, o):\n            ret.append(o)\n        return ret or self.default_retval()\n\n    def visit_TypeDef",
            expect=('R3', 'pre-order')),
+    Mutant('greedy-return-outside-match', 'loki/ir/find.py',
+           "        if self.rule(self.match, o):\n            ret.append(o)\n            if self.greedy:\n                return ret\n        for i in o.children:\n            ret = self.visit(i, ret=ret, **kwargs)\n        return ret or self.default_retval()\n\n    def visit_TypeDef",
+           "        if self.rule(self.match, o):\n            ret.append(o)\n        if self.greedy and ret:\n            return ret\n        for i in o.children:\n            ret = self.visit(i, ret=ret, **kwargs)\n        return ret or self.default_retval()\n\n    def visit_TypeDef",
+           expect=('R3', 'early-exit')),
     Mutant('neutral-rename-local', 'loki/ir/find.py',
            "        for i in o.children:\n            ret = self.visit(i, ret=ret, **kwargs)\n        return ret or self.default_retval()\n\n    def visit_TypeDef",
            "        for child in o.children:\n            ret = self.visit(child, ret=ret, **kwargs)\n        return ret or self.default_retval()\n\n    def visit_TypeDef",
